@@ -567,4 +567,272 @@ theorem sortBy_perm {α} (le : α → α → Bool) (l : List α) : (sortBy le l)
       exact (List.perm_middle).trans (List.Perm.refl _)
   simpa using key l []
 
+
+/-! ### printed numbers in general: integer part, optional fraction, optional exponent -/
+
+def AllDigits (l : List Char) : Prop := ∀ c ∈ l, isDigit c = true
+
+/-- an optional sign as Python prints / the regex accepts it -/
+def IsSign (s : List Char) : Prop := s = [] ∨ s = ['+'] ∨ s = ['-']
+
+/-- `[-+]?\d+(\.\d*)?([eE][-+]?\d+)?`: what `str(int)` and `repr(float)` print for finite values
+(`5`, `-3`, `0.5`, `100000.0`, `1e-05`, `-2.5e+16`) and a little more -/
+def IsNumLit (l : List Char) : Prop :=
+  ∃ sg ip fr ex, l = sg ++ (ip ++ (fr ++ ex)) ∧ IsSign sg ∧ ip ≠ [] ∧ AllDigits ip ∧
+    (fr = [] ∨ ∃ fd, fr = '.' :: fd ∧ AllDigits fd) ∧
+    (ex = [] ∨ ∃ e s ed, ex = e :: (s ++ ed) ∧ isExp e = true ∧ IsSign s ∧ ed ≠ [] ∧ AllDigits ed)
+
+/-- the regex consumes the whole string as one number -/
+def FullMatch (l : List Char) : Prop := matchNum l = some (l, [])
+
+theorem isSign_of_isDigit {c : Char} (h : isDigit c = true) : isSign c = false := by
+  simp only [isDigit, isSign, Bool.and_eq_true, decide_eq_true_eq] at h ⊢
+  by_cases h1 : c = '+'
+  · subst h1; exact absurd h (by decide)
+  · by_cases h2 : c = '-'
+    · subst h2; exact absurd h (by decide)
+    · simp [h1, h2]
+
+theorem ne_dot_of_isDigit {c : Char} (h : isDigit c = true) : c ≠ '.' := by
+  intro hc; subst hc; exact absurd h (by decide)
+
+theorem isDigit_of_isExp {c : Char} (h : isExp c = true) : isDigit c = false := by
+  simp only [isExp, Bool.or_eq_true, decide_eq_true_eq] at h
+  rcases h with rfl | rfl <;> decide
+
+theorem ne_dot_of_isExp {c : Char} (h : isExp c = true) : c ≠ '.' := by
+  simp only [isExp, Bool.or_eq_true, decide_eq_true_eq] at h
+  rcases h with rfl | rfl <;> decide
+
+/-- digits followed by nothing or by a non-digit -/
+theorem spanDigits_append {ip tail : List Char} (hip : AllDigits ip)
+    (ht : ∀ c t, tail = c :: t → isDigit c = false) : spanDigits (ip ++ tail) = (ip, tail) := by
+  induction ip with
+  | nil =>
+    cases tail with
+    | nil => rfl
+    | cons c t => simp [spanDigits, ht c t rfl]
+  | cons x r ih =>
+    have hx := hip x List.mem_cons_self
+    have := ih (fun c hc => hip c (List.mem_cons_of_mem _ hc))
+    simp [spanDigits, hx, this]
+
+theorem optSign_append {s t : List Char} (hs : IsSign s) (ht : ∀ c r, t = c :: r → isSign c = false) :
+    optSign (s ++ t) = (s, t) := by
+  rcases hs with rfl | rfl | rfl
+  · cases t with
+    | nil => rfl
+    | cons c r => simp [optSign, ht c r rfl]
+  · simp [optSign, show isSign '+' = true from by decide]
+  · simp [optSign, show isSign '-' = true from by decide]
+
+theorem head_digit {l : List Char} (hne : l ≠ []) (hd : AllDigits l) : ∃ c r, l = c :: r ∧ isDigit c = true := by
+  cases l with
+  | nil => exact absurd rfl hne
+  | cons c r => exact ⟨c, r, rfl, hd c List.mem_cons_self⟩
+
+/-- every printed number is matched entirely by the regex -/
+theorem fullMatch_of_isNumLit {l : List Char} (h : IsNumLit l) : FullMatch l := by
+  obtain ⟨sg, ip, fr, ex, rfl, hsg, hipne, hip, hfr, hex⟩ := h
+  obtain ⟨d0, ip', hipeq, hd0⟩ := head_digit hipne hip
+  unfold FullMatch matchNum
+  -- the sign
+  have h1 : optSign (sg ++ (ip ++ (fr ++ ex))) = (sg, ip ++ (fr ++ ex)) := by
+    apply optSign_append hsg
+    intro c r hcr
+    rw [hipeq] at hcr
+    simp only [List.cons_append, List.cons.injEq] at hcr
+    rw [← hcr.1]; exact isSign_of_isDigit hd0
+  rw [h1]
+  simp only
+  -- the exponent, on whatever mantissa `m`
+  have hexp : ∀ m, withExp m ex = (m ++ ex, []) := by
+    intro m
+    rcases hex with rfl | ⟨e, s, ed, rfl, he, hs, hedne, hed⟩
+    · simp [withExp]
+    · obtain ⟨d1, ed', hedeq, hd1⟩ := head_digit hedne hed
+      have hso : optSign (s ++ ed) = (s, ed) := by
+        apply optSign_append hs
+        intro c r hcr
+        rw [hedeq] at hcr
+        simp only [List.cons.injEq] at hcr
+        rw [← hcr.1]; exact isSign_of_isDigit hd1
+      have hsp : spanDigits ed = (ed, []) := by
+        have := spanDigits_append (tail := []) hed (by intro c t h; cases h)
+        simpa using this
+      have hne : ed.isEmpty = false := by
+        cases ed with
+        | nil => exact absurd rfl hedne
+        | cons _ _ => rfl
+      simp [withExp, he, hso, hsp, hne]
+  -- first character of the exponent part is no digit and no dot
+  have hexhead : ∀ c t, ex = c :: t → isDigit c = false ∧ c ≠ '.' := by
+    intro c t hct
+    rcases hex with rfl | ⟨e, s, ed, rfl, he, _⟩
+    · cases hct
+    · simp only [List.cons.injEq] at hct
+      rw [← hct.1]; exact ⟨isDigit_of_isExp he, ne_dot_of_isExp he⟩
+  rw [hipeq]
+  simp only [List.cons_append, matchMantissa, hd0, if_true]
+  rw [← List.cons_append, ← hipeq]
+  have hspan : spanDigits (ip ++ (fr ++ ex)) = (ip, fr ++ ex) := by
+    apply spanDigits_append hip
+    intro c t hct
+    rcases hfr with rfl | ⟨fd, rfl, _⟩
+    · exact (hexhead c t (by simpa using hct)).1
+    · simp only [List.cons_append, List.cons.injEq] at hct
+      rw [← hct.1]; decide
+  rw [hspan]
+  simp only
+  rcases hfr with rfl | ⟨fd, rfl, hfd⟩
+  · -- no fraction
+    have : optFrac ([] ++ ex) = ([], ex) := by
+      cases hx : ex with
+      | nil => rfl
+      | cons c t => simp [optFrac, (hexhead c t hx).2]
+    rw [this]
+    simp [hexp]
+  · have hsp : spanDigits (fd ++ ex) = (fd, ex) :=
+      spanDigits_append hfd (fun c t hct => (hexhead c t hct).1)
+    simp [optFrac, hsp, hexp]
+
+/-- scanning a string that is one whole number token, with text `A` pending -/
+theorem scan_fullMatch {l : List Char} (hm : FullMatch l) (A : List Char) :
+    scan l 0 A = [.text A, .num l, .text []] := by
+  unfold FullMatch at hm
+  obtain ⟨_, hpos⟩ := matchNum_splits hm
+  cases hs : l with
+  | nil => rw [hs] at hpos; simp at hpos
+  | cons x r =>
+    rw [hs] at hm
+    simp only [scan, hm]
+    rw [scan_skip_all r _ [] (by simp)]
+
+theorem fullMatch_showInt (n : Int) : FullMatch (showInt n) := matchNum_showInt n
+
+/-! ### the comparison of two decimals is the comparison of their values -/
+
+theorem int_compare_mul_right {x y c : Int} (hc : 0 < c) : compare (x * c) (y * c) = compare x y := by
+  have h1 : x * c < y * c ↔ x < y := Int.mul_lt_mul_right hc
+  have h2 : x * c = y * c ↔ x = y := Int.mul_eq_mul_right_iff (by omega)
+  simp only [compare, compareOfLessAndEq]
+  by_cases hlt : x < y
+  · simp [hlt, h1.mpr hlt]
+  · have hlt' : ¬ x * c < y * c := fun h => hlt (h1.mp h)
+    by_cases heq : x = y
+    · simp [heq]
+    · have heq' : ¬ x * c = y * c := fun h => heq (h2.mp h)
+      simp [hlt, hlt', heq, heq']
+
+/-- bringing a decimal to a smaller common exponent multiplies its integer form by a positive power of ten -/
+theorem scaled_rescale (d : Dec) {E0 E1 : Int} (h01 : E0 ≤ E1) (h1 : E1 ≤ d.e) :
+    d.scaled E0 = d.scaled E1 * ((10 ^ (E1 - E0).toNat : Nat) : Int) := by
+  have hk : (d.e - E0).toNat = (d.e - E1).toNat + (E1 - E0).toNat := by omega
+  unfold Dec.scaled
+  simp only [hk, Nat.pow_add, ← Nat.mul_assoc]
+  by_cases hn : d.neg = true
+  · simp only [hn, if_true, Int.natCast_mul, Int.neg_mul]
+  · simp only [hn, Bool.false_eq_true, if_false, Int.natCast_mul]
+
+theorem pow10_pos (k : Nat) : (0 : Int) < ((10 ^ k : Nat) : Int) := by
+  have : 0 < 10 ^ k := Nat.pow_pos (by decide)
+  omega
+
+/-- `decCmp` compares the values: at ANY common exponent `E0` below both, it is the comparison of the two integers
+`value · 10^(-E0)` (exponents at most 4096 apart: every pair of printed doubles) -/
+theorem decCmp_eq_compare_scaled (a b : Dec) (hclose : (a.e - b.e).natAbs ≤ 4096) {E0 : Int}
+    (ha : E0 ≤ a.e) (hb : E0 ≤ b.e) : decCmp a b = compare (a.scaled E0) (b.scaled E0) := by
+  have key : ∀ emin, E0 ≤ emin → emin ≤ a.e → emin ≤ b.e →
+      compare (a.scaled emin) (b.scaled emin) = compare (a.scaled E0) (b.scaled E0) := by
+    intro emin h0 h1 h2
+    rw [scaled_rescale a h0 h1, scaled_rescale b h0 h2, int_compare_mul_right (pow10_pos _)]
+  unfold decCmp
+  by_cases he : a.e = b.e
+  · simp only [he, if_true]
+    rw [← key b.e hb (by omega) (Int.le_refl _)]
+    have hs : ∀ d : Dec, d.scaled d.e = d.signed := by
+      intro d; simp [Dec.scaled, Dec.signed]
+    have : a.scaled b.e = a.signed := by rw [← he]; exact hs a
+    rw [this, hs b]
+  · simp only [he, if_false, hclose, if_true]
+    by_cases hle : a.e ≤ b.e
+    · simp only [hle, if_true]; exact key a.e ha (Int.le_refl _) hle
+    · simp only [hle, if_false]; exact key b.e hb (by omega) (Int.le_refl _)
+
+/-! ### sorting by an integer-valued key -/
+
+def keyLe {α} (f : α → Int) (a b : α) : Bool := decide (f a ≤ f b)
+
+theorem sorted_insertBy_key {α} (f : α → Int) (a : α) {l : List α} (h : l.Pairwise (fun x y => f x ≤ f y)) :
+    (insertBy (keyLe f) a l).Pairwise (fun x y => f x ≤ f y) := by
+  induction l with
+  | nil => simp [insertBy]
+  | cons b r ih =>
+    have hb := List.pairwise_cons.mp h
+    simp only [insertBy, keyLe]
+    by_cases hba : f b ≤ f a
+    · simp only [hba, decide_true, if_true]
+      refine List.pairwise_cons.mpr ⟨?_, ih hb.2⟩
+      intro y hy
+      rcases (mem_insertBy (keyLe f) a y r).mp hy with e | e
+      · subst e; exact hba
+      · exact hb.1 y e
+    · simp only [hba, decide_false, Bool.false_eq_true, if_false]
+      refine List.pairwise_cons.mpr ⟨?_, h⟩
+      intro y hy
+      rcases List.mem_cons.mp hy with e | e
+      · subst e; omega
+      · have := hb.1 y e; omega
+
+theorem sorted_sortBy_key {α} (f : α → Int) (l : List α) :
+    (sortBy (keyLe f) l).Pairwise (fun x y => f x ≤ f y) := by
+  unfold sortBy
+  have key : ∀ (l acc : List α), acc.Pairwise (fun x y => f x ≤ f y) →
+      (l.foldl (fun acc a => insertBy (keyLe f) a acc) acc).Pairwise (fun x y => f x ≤ f y) := by
+    intro l
+    induction l with
+    | nil => intro acc h; exact h
+    | cons a r ih => intro acc h; exact ih _ (sorted_insertBy_key f a h)
+  exact key l [] List.Pairwise.nil
+
+/-- a sort whose comparison agrees with another one on the members of the list gives the same result -/
+theorem insertBy_congr {α} (le le' : α → α → Bool) (a : α) (l : List α) (h : ∀ b ∈ l, le b a = le' b a) :
+    insertBy le a l = insertBy le' a l := by
+  induction l with
+  | nil => rfl
+  | cons b r ih =>
+    simp only [insertBy, h b List.mem_cons_self, ih (fun c hc => h c (List.mem_cons_of_mem _ hc))]
+
+theorem sortBy_congr {α} (le le' : α → α → Bool) (l : List α) (h : ∀ a ∈ l, ∀ b ∈ l, le a b = le' a b) :
+    sortBy le l = sortBy le' l := by
+  unfold sortBy
+  have key : ∀ (l2 acc : List α), (∀ x ∈ l2, x ∈ l) → (∀ x ∈ acc, x ∈ l) →
+      l2.foldl (fun acc a => insertBy le a acc) acc = l2.foldl (fun acc a => insertBy le' a acc) acc := by
+    intro l2
+    induction l2 with
+    | nil => intro acc _ _; rfl
+    | cons a r ih =>
+      intro acc h2 hacc
+      simp only [List.foldl_cons]
+      have ha : a ∈ l := h2 a List.mem_cons_self
+      rw [insertBy_congr le le' a acc (fun b hb => h b (hacc b hb) a ha)]
+      apply ih
+      · exact fun x hx => h2 x (List.mem_cons_of_mem _ hx)
+      · intro x hx
+        rcases (mem_insertBy le' a x acc).mp hx with e | e
+        · subst e; exact ha
+        · exact hacc x e
+  exact key l [] (fun x hx => hx) (fun x hx => by cases hx)
+
+/-! ### `_checkpoint_path_step` -/
+
+theorem lastNum_append_num (K : List Tok) (A l : List Char) :
+    lastNum (K ++ [.text A, .num l, .text []]) = some l := by
+  induction K with
+  | nil => simp [lastNum]
+  | cons t r ih =>
+    cases t with
+    | text s => simpa [lastNum] using ih
+    | num s => simp [lastNum, ih]
+
 end Flax.NatSort
